@@ -30,7 +30,7 @@ if [ "${1:-}" = "--build" ]; then
   build "$HERE/harness/target" || exit 2
   exit 0
 fi
-[ $# -ge 2 ] || { sed -n 2,8p "$0"; exit 2; }
+[ $# -ge 2 ] || { sed -n 2,8p "$HERE/run.sh"; exit 2; }
 ID="$1"; shift
 
 build "$HERE/harness/target" || exit 2
